@@ -66,6 +66,7 @@ type VC struct {
 	curLoopA    *Term
 	pendingTyping []pendingType
 	pendingRoles  []string
+	closureVars   map[string]EV // captured variables of a closure under contract, by name (entry values)
 }
 
 func (vc *VC) note(format string, a ...any) {
@@ -216,7 +217,11 @@ func FuncKey(fn *ssa.Function) string {
 		fn = o
 	}
 	if fn.Parent() != nil {
-		return FuncKey(fn.Parent()) + "$" + fn.Name()
+		n := fn.Name()
+		if i := strings.LastIndex(n, "$"); i >= 0 {
+			n = n[i+1:]
+		}
+		return FuncKey(fn.Parent()) + "$" + n
 	}
 	obj, _ := fn.Object().(*types.Func)
 	if obj == nil {
